@@ -198,7 +198,14 @@ def r10b(P, R):
                         "identifiers are delimited is not decided on this shape", loc=g.loc())
         else:
             R.holds("R10-b", "identifier-classes", "identifier = [A-Za-z_][A-Za-z0-9_]*: all %d letter-class tests treat `_` as a letter" % ok, loc=g.loc())
-        ml0 = P.fn(PR + "schema_type_printer::context::make_local_type_names")
+        ml0 = P.fn(PR + "schema_type_printer::context::make_local_type_names", required=False)
+        if ml0 is None:
+            # by role: the function of the crate that builds the identifier bag (and renames against it)
+            users = [P.fns[c] for c in P.callers_of(g.path) if c in P.fns and "::tests" not in c and not P.fns[c].derived and P.fns[c].kind in ("Fn", "AssocFn")]
+            if len(users) != 1:
+                from facts import AnchorMissing
+                raise AnchorMissing("the function that renames schema types against the identifier bag (callers of get_bag_of_identifiers: %s)" % [u.path for u in users])
+            ml0 = users[0]
         ml = inlined(P, ml0, pred=stable_pred(lambda x: x.path != g.path))
         pv = Prov(ml)
         uses_bag = calls_anywhere(ml, "context::get_bag_of_identifiers")
@@ -518,7 +525,11 @@ def r10e(P, R):
             ros = [y for y in x["fields"] if y["name"] == "readonly"]
             ro = lit_value(ros[0]["e"]) if ros else None
             if ro is None:
-                R.undecided("R10-e", "input-readonly", "`readonly` of an input field is not a literal", loc=g.loc())
+                opts = sorted({x[2] for x in gpv.deep_atoms(ros[0]["e"]) if x[0] == "field" and x[1] == SOPT}) if ros else []
+                if opts:
+                    R.holds("R10-e", "input-readonly", "input fields are readonly as the printer option `%s` says (configurable)" % "`, `".join(opts), loc=g.loc())
+                else:
+                    R.undecided("R10-e", "input-readonly", "`readonly` of an input field is neither a literal nor a printer option", loc=g.loc())
             else:
                 R.check("R10-e", "input-readonly", ro is True, "input fields are readonly", "input fields are not readonly", loc=g.loc())
         R.check("R10-e", "input-deep-readonly", any(c.get("k") == "MethodCall" and c["method"] == "into_readonly" for c in g.walk()),
